@@ -18,8 +18,7 @@ Wiring (props/c19.py):
   * kernel path (NEW, needs one line of wiring): the model of ker_p256 takes the StdRng start vector as an input, so K runs through the
     pipeline's follow-up mechanism: define in props/c19.py  \`def followup(case, ans): return c19_wied.followup(case, ans)\`.
     c19_wied.cases() yields \`im_ker_trace <rows> <p>\` requests (new harness op in harness/src/ops_wied.rs, answer \`<v0>|<answer of
-    im_ker_p256>\`, k=False, o=False: the same matrices are judged by the existing im_ker_p256 oracle when generated by c19.py; for the
-    ones generated here the oracle is c19_wied.oracle_ker) and followup() turns each answer into the driver request
+    im_ker_p256>\`, k=False, o=False; optional oracle: \`if case.op == 'im_ker_trace': return c19_wied.oracle_ker(case, ans)\` and set o=True) and followup() turns each answer into the driver request
     \`im_ker_model <rows> <p> <v0>\` with the implementation's answer as the expected one.
     Measured: the im_ker_p256 matrices of c19.cases (quick seeds 1-3, 240 requests) + the panic / None / width classes generated here:
     all agree in both profiles.
@@ -166,7 +165,9 @@ def ker_cases(tier, rng):
         if any(abs(x) > 32767 for r in M for x in r):
             continue
         rows = ";".join(",".join(f"{j}:{e}" for j, e in enumerate(r) if e) or "-" for r in M)
-        out.append(Case(f"im_ker_trace {rows} {rng.choice(primes)}", k=False, tag=kind))
+        # o=False: props/c19.py's oracle does not know this op (c19_wied.oracle_ker can be wired in; until then these requests are
+        # compared with the model only, through followup())
+        out.append(Case(f"im_ker_trace {rows} {rng.choice(primes)}", k=False, o=False, tag=kind))
     out.append(Case("im_ker_trace - 1000003", k=False, o=False))
     out.append(Case("im_ker_trace 0:0 1000003", k=False, o=False))
     out.append(Case("im_ker_trace 0:5 1000003", k=False, o=False))
